@@ -483,7 +483,7 @@ func stripFrag(p []interface{}) []interface{} {
 }
 
 var c06Kinds = []string{workload.FaultError, workload.FaultGGQLError, workload.FaultErrorGroup, workload.FaultBadLeaf,
-	workload.FaultGroupExt, workload.FaultNestedGrp, workload.FaultBadList, workload.FaultTwinGroup, workload.FaultWrapGroup, workload.FaultWrapGGQL, workload.FaultOwnPath, workload.FaultTypedNil, workload.FaultOverGroup}
+	workload.FaultGroupExt, workload.FaultNestedGrp, workload.FaultBadList, workload.FaultTwinGroup, workload.FaultWrapGroup, workload.FaultWrapGGQL, workload.FaultOwnPath, workload.FaultTypedNil, workload.FaultOverGroup, workload.FaultWrapPlain}
 
 // runSubscription is the subscription family of C06: a subscription operation
 // whose root fields the subscription resolver accepts or refuses (a plain error
